@@ -1333,6 +1333,9 @@ def check(tier, seed):
             all_problems.append((sig, what, {'texts': short}))
     extra_problems, extra_cov = structured_forms(run, rng, tier, stats)
     all_problems += extra_problems
+    size_problems, size_cov = judge_sizes(run, tier, stats)
+    all_problems += size_problems
+    extra_cov.update(size_cov)
     sweep_wall = time.time() - t0
 
     # ---- 4. correspondence of the generated predicates with the real value parsers (Coq evaluates)
@@ -1733,3 +1736,248 @@ def structured_forms(run, rng, tier, stats):
                    'value length) is the one written', not probs, f'{len(probs)} failing; first: {probs[0][:2] if probs else ""}')
     found += probs
     return [(sig, what, {'texts': {'text': t}}) for sig, what, t in found], {'as_path_forms': len(asp), 'extended_community_forms': len(ext), 'flow_operator_lists': len(fl)}
+
+
+# ------------------------------------------------------------------------------- encoded-size boundaries (every field ordinary)
+# Second review: a rule can be unsendable although no number in it is near a limit - the SIZE of what it encodes to
+# sits on a boundary of the wire format (flow NLRI length 239/240 one or two octets, 4095 the most twelve bits hold;
+# 255 ASNs per segment; attribute value 255/256 octets = extended-length flag).
+
+
+def flow_strict(data, v6):
+    """One flow NLRI read strictly as RFC 8955 4.1 / RFC 8956 3 say: length < 240 in one octet, else 0xfnnn in two;
+    the components must fill exactly that length and the NLRI exactly the field.  -> (components, None) | (None, why)"""
+    if not data:
+        return None, 'empty NLRI field'
+    if data[0] < 0xF0:
+        ln, off = data[0], 1
+    else:
+        if len(data) < 2:
+            return None, 'two-octet length cut short'
+        ln, off = (data[0] & 0x0F) << 8 | data[1], 2
+    if off + ln != len(data):
+        return None, f'length field says {ln} octets of components, the NLRI field holds {len(data) - off} (first octets {data[:3].hex()})'
+    end, comps = off + ln, []
+    try:
+        while off < end:
+            t = data[off]
+            off += 1
+            if t in (1, 2):
+                mask = data[off]
+                if v6:
+                    o = data[off + 1]
+                    n = (mask - o + 7) // 8
+                    comps.append((t, (mask, o, bytes(data[off + 2 : off + 2 + n]))))
+                    off += 2 + n
+                else:
+                    n = (mask + 7) // 8
+                    comps.append((t, (mask, 0, bytes(data[off + 1 : off + 1 + n]))))
+                    off += 1 + n
+                continue
+            ops = []
+            while True:
+                op = data[off]
+                n = 1 << ((op >> 4) & 3)
+                if off + 1 + n > end:
+                    return None, 'operator runs over the end of the NLRI'
+                ops.append((op & 0xCF, be_int(data[off + 1 : off + 1 + n])))  # operator without the length bits, value
+                off += 1 + n
+                if op & 0x80:
+                    break
+            comps.append((t, ops))
+    except IndexError:
+        return None, 'components run over the end of the NLRI'
+    if off != end:
+        return None, 'components do not end where the length says'
+    return comps, None
+
+
+def flow_size_case(total, v6):
+    """A flow rule of ordinary values whose NLRI components take exactly `total` octets:
+    one destination prefix and `port [ =v ... ]` with 3 octets per value >= 256 and 2 octets per value < 256."""
+    head = 7 if v6 else 5  # type, length, [offset], 4 / 3 prefix octets
+    room = total - head - 1
+    b = {0: 0, 2: 1, 1: 2}[room % 3]
+    a = (room - 2 * b) // 3
+    if a < 0 or room < 2:
+        return None
+    values = [1000 + i for i in range(a)] + [10 + i for i in range(b)]
+    dest = '2001:db8::/32' if v6 else '10.0.0.0/24'
+    want = [(1, (32, 0, bytes.fromhex('20010db8')) if v6 else (24, 0, bytes([10, 0, 0])))]
+    want.append((4, [((0x80 if i == len(values) - 1 else 0) | 0x01, v) for i, v in enumerate(values)]))
+    body = 'match { destination %s; port [ %s ]; } then { discard; }' % (dest, ' '.join(f'={v}' for v in values))
+    return body, want
+
+
+def size_cases(tier):
+    """-> [(kind, name, texts per entry point, sendable?, checker(upd, sess) -> None | problem text)]"""
+    out = []
+    # ---- flow NLRI totals
+    totals = [238, 239, 240, 241, 242, 254, 255, 256, 257, 4093, 4094, 4095, 4096, 4097]
+    if tier != 'quick':
+        totals += list(range(230, 238)) + list(range(243, 254)) + [511, 512, 513, 1023, 1024, 4000]
+    for v6 in (False, True):
+        for total in totals:
+            made = flow_size_case(total, v6)
+            if made is None:
+                continue
+            body, want = made
+
+            def chk(upd, sess, want=want, v6=v6, total=total):
+                mp = mp_reach(upd)
+                if mp is None:
+                    return 'no MP_REACH_NLRI in the message'
+                comps, why = flow_strict(mp[3], v6)
+                if comps is None:
+                    return f'the flow NLRI sent cannot be read: {why}'
+                if comps != want:
+                    return f'the flow NLRI sent reads as {str(comps)[:200]}, written {str(want)[:200]}'
+                return None
+
+            out.append(('flow', f'flow-nlri-{"ipv6" if v6 else "ipv4"}-{total}-octets',
+                        {'conf': 'flow { route f { %s } }' % body, 'api': 'peer * announce flow route { %s }' % body},
+                        total <= 4095, chk, 4 + total > 4000))
+    # ---- AS_PATH: ASNs in one segment (the count is one octet)
+    for n in (254, 255, 256, 257, 510, 511):
+        for large_at in (None, 254, 255):
+            asns = [64512 + (i % 1000) for i in range(n)]
+            if large_at is not None:
+                if large_at >= n:
+                    continue
+                asns[large_at] = 4200000000 + n
+            text = f'{BASE4} as-path [ {" ".join(str(a) for a in asns)} ]'
+
+            def chk(upd, sess, asns=asns):
+                def flat(val, size):
+                    segs = as_segments(val, size)
+                    if segs is None:
+                        return None, 'segments do not parse'
+                    if any(t != 2 or not 1 <= len(l) <= 255 for t, l in segs):
+                        return None, f'segment types/sizes {[(t, len(l)) for t, l in segs]}'
+                    return [a for _, l in segs for a in l], None
+
+                p = attr(upd, 2)
+                if p is None:
+                    return 'no AS_PATH'
+                if sess.asn4:
+                    got, why = flat(p, 4)
+                    return None if got == asns else f'AS_PATH carries {why or str(got)[:120]}'
+                got, why = flat(p, 2)
+                if got != [a if a <= 65535 else 23456 for a in asns]:
+                    return f'AS_PATH (2-octet) carries {why or str(got)[:120]}'
+                if any(a > 65535 for a in asns):
+                    p4 = attr(upd, 17)
+                    got4, why = flat(p4, 4) if p4 is not None else (None, 'no AS4_PATH')
+                    return None if got4 == asns else f'AS4_PATH carries {why or str(got4)[:120]}'
+                return None
+
+            out.append(('as-path', f'as-path-{n}-asns' + ('' if large_at is None else f'-4-octet-at-{large_at}'),
+                        {'conf': 'static { %s; }' % text, 'prt': text, 'api': 'peer * announce ' + text}, True, chk, False))
+    # ---- attribute value length across 255 octets (extended-length flag)
+    def listcase(name, code, kw, items, raw_of, unit):
+        text = f'{BASE4} {kw} [ {" ".join(items)} ]'
+        want = sorted(raw_of(i) for i in items)
+
+        def chk(upd, sess):
+            a = attr(upd, code)
+            if a is None:
+                return f'attribute {code} is not in the message'
+            got = sorted(bytes(a[i : i + unit]) for i in range(0, len(a), unit))
+            if len(a) % unit or got != want:
+                return f'attribute {code} carries {len(a)} octets / {len(got)} members, written {len(want)} members'
+            return None
+
+        out.append(('attribute-length', f'{name}-{len(items)}-members-{len(items) * unit}-octets',
+                    {'conf': 'static { %s; }' % text, 'prt': text, 'api': 'peer * announce ' + text}, True, chk, False))
+
+    for n in (63, 64, 65):
+        listcase('community', 8, 'community', [f'{65000}:{i + 1}' for i in range(n)], lambda s: struct.pack('!HH', *map(int, s.split(':'))), 4)
+    for n in (21, 22):
+        listcase('large-community', 32, 'large-community', [f'65000:{i + 1}:7' for i in range(n)], lambda s: struct.pack('!LLL', *map(int, s.split(':'))), 12)
+    for n in (31, 32, 33):
+        listcase('extended-community', 16, 'extended-community', [f'target:65000:{i + 1}' for i in range(n)],
+                 lambda s: b'\x00\x02' + struct.pack('!HL', int(s.split(':')[1]), int(s.split(':')[2])), 8)
+    for n in (254, 255, 256, 257, 4000):
+        data = bytes((i * 7 + 1) & 0xFF for i in range(n))
+        text = f'{BASE4} attribute [ 0x99 0xc0 0x{data.hex()} ]'
+
+        def chk(upd, sess, data=data):
+            for fl, code, val in upd['attrs']:
+                if code == 0x99:
+                    return None if bytes(val) == data and (fl & 0xEF) == 0xC0 else f'attribute 0x99 carries {len(val)} octets with flags {fl:#x}, written {len(data)} octets'
+            return 'attribute 0x99 is not in the message'
+
+        out.append(('attribute-length', f'generic-attribute-{n}-octets', {'conf': 'static { %s; }' % text, 'prt': text, 'api': 'peer * announce ' + text},
+                    True, chk, n > 3000))
+    return out
+
+
+def ext_length_consistent(upd):
+    """RFC 4271 4.3: the extended-length bit is for values longer than 255 octets (and is needed for them)."""
+    for fl, code, val in upd['attrs']:
+        if bool(fl & 0x10) != (len(val) > 255) and code not in (14, 15):
+            return f'attribute {code}: {len(val)} octets with flags {fl:#x}'
+    return None
+
+
+def judge_sizes(run, tier, stats):
+    cases = size_cases(tier)
+    found = []
+    hist = collections.Counter()
+    for kind, name, texts, sendable, chk, needs_big in cases:
+        for entry, t in texts.items():
+            res, val = with_watchdog({'conf': run_conf, 'prt': run_prt, 'api': run_api}[entry], t, 60)
+            stats['texts'] += 1
+            hist[f'{kind}:{res}'] += 1
+            short = t if len(t) < 300 else t[:160] + f' ...({len(t)} chars)... ' + t[-80:]
+            if res == 'R':
+                if sendable:
+                    found.append((f'refused-but-valid:size:{kind}', f'{entry}: {name}: every value is ordinary and the encoding fits the wire format, but it is refused: '
+                                  f'{val.strip()[-140:]!r}', {'name': name, 'texts': {entry: short}}))
+                continue
+            if res != 'A':
+                cls = val.get('cls') if isinstance(val, dict) else 'no-reply'
+                found.append((f'exception:{cls}:size:{kind}', f'{entry}: {name}: {val}', {'name': name, 'texts': {entry: short}}))
+                continue
+            if not sendable:
+                found.append((f'accepted-but-cannot-encode:size:{kind}', f'{entry}: {name} is accepted although no session can carry it (the wire length field cannot hold it)',
+                              {'name': name, 'texts': {entry: short}}))
+                continue
+            if len(val) != 1:
+                found.append((f'accepted-without-route:size:{kind}', f'{entry}: {name}: {len(val)} routes', {'name': name, 'texts': {entry: short}}))
+                continue
+            for sess in sessions():
+                if needs_big and sess.msg_size == 4096:
+                    continue  # does not fit a 4096-octet message: only the extended-message sessions can carry it
+                try:
+                    msgs = encode_decode(val[0], sess)
+                except Exception as e:
+                    info = exc_info(e)
+                    found.append((f'accepted-but-cannot-encode:size:{kind}', f'{entry}: {name} accepted, then {info["cls"]} "{info["msg"]}" at {info["where"]} for {sess.key}',
+                                  {'name': name, 'session': sess.key, 'texts': {entry: short}}))
+                    break
+                stats['encodes'] += 1
+                upd = read_update(msgs[0]) if len(msgs) == 1 else None
+                if upd is None:
+                    found.append((f'accepted-but-not-sent:size:{kind}', f'{entry}: {name}: {len(msgs)} messages / not a well framed UPDATE for {sess.key}',
+                                  {'name': name, 'session': sess.key, 'texts': {entry: short}}))
+                    break
+                stats['compares'] += 1
+                why = chk(upd, sess) or ext_length_consistent(upd)
+                if why:
+                    found.append((f'accepted-but-wrapped:size:{kind}', f'{entry}: {name} for {sess.key}: {why}', {'name': name, 'session': sess.key, 'texts': {entry: short}}))
+                    break
+                try:
+                    dec = decode(msgs[0], sess)
+                    [str(r.nlri) for r in dec.announces]
+                    str(dec.attributes)
+                except Exception as e:
+                    info = exc_info(e)
+                    found.append((f'accepted-but-undecodable:size:{kind}', f'{entry}: {name}: the real decoder raises {info["cls"]} "{info["msg"]}" at {info["where"]} for {sess.key}',
+                                  {'name': name, 'session': sess.key, 'texts': {entry: short}}))
+                    break
+    run.obligation(f'property oracle: {len(cases)} texts of ordinary values whose ENCODED SIZE sits on a wire boundary (flow NLRI 238..242, 254..257, 4093..4097 octets, ipv4 '
+                   'and ipv6; 254..257 and 510/511 ASNs in one segment; community / large / extended community lists and a generic attribute across 255 octets): '
+                   'refused only when no length field can hold it, otherwise sent and read back octet for octet as written',
+                   not found, f'{len(found)} failing; first: {found[0][:2] if found else ""}')
+    return found, {'size_boundary_texts': len(cases), 'size_boundary_outcomes': dict(hist)}
